@@ -23,6 +23,7 @@ func rulesC18(c *Ctx) {
 		"NOT decided: correctness of x509/ECDSA/SHA-256, time-window arithmetic at the boundaries, TCB level matching logic (getTCBLevel), TDX module policy semantics.")
 	c18Round2(c)
 	c18Round3(c)
+	c18Round4(c)
 	c.AssumeFalse = `^\*global:common/sgx/pcs\.unsafe(SkipVerify|LaxVerify)$`
 	ix := c.P.BuildIndex()
 	spec := map[string][]c18ob{
